@@ -285,6 +285,27 @@ func checkInt(k *ck) {
 			k.rejected++
 		}
 	}
+	// the same INTEGER inside an EXPLICIT [0] wrapper, read by ReadOptionalASN1Integer: alone in
+	// the wrapper, and followed there by further octets (which no re-encoding can reproduce)
+	if k.elemLen > 0 && k.elemLen <= len(in) && k.elemLen < 100 && in[0] == 0x02 {
+		for _, trail := range [][]byte{nil, {0x00}, {0x05, 0x00}} {
+			body := append(append([]byte{}, in[:k.elemLen]...), trail...)
+			inW := append([]byte{0xa0, byte(len(body))}, body...)
+			var v int64
+			s := cryptobyte.String(inW)
+			if s.ReadOptionalASN1Integer(&v, cbasn1.Tag(0).ContextSpecific().Constructed(), int64(7)) {
+				re, err := bld(func(b *cryptobyte.Builder) {
+					b.AddASN1(cbasn1.Tag(0).ContextSpecific().Constructed(), func(c *cryptobyte.Builder) { c.AddASN1Int64(v) })
+				})
+				saveIn, saveLen := k.in, k.elemLen
+				k.in, k.elemLen = inW, len(inW)
+				k.verdict("cryptobyte", fmt.Sprintf("ReadOptionalASN1Integer([0] EXPLICIT, %d trailing octets inside the wrapper)", len(trail)), len(inW)-len(s), re, err)
+				k.in, k.elemLen = saveIn, saveLen
+			} else {
+				k.rejected++
+			}
+		}
+	}
 	k.finish(k.defect == "nonminimal-integer" && nearInt(content) || k.defect == "empty-integer" || k.defect == "nonminimal-length")
 }
 
